@@ -138,12 +138,13 @@ def _data_case(run, ef, case, data, brief, ELFCompressionError):
     # harness-side recompression: other deflate encodings of the same payload in the slot the spec designates
     if kind == 'zlib' and case['zslot']['len'] > 0:
         slot = case['zslot']
-        for level in (1, 6, 9):
-            z = zlib.compress(payload, level)
+        for level, wbits in ((1, 15), (6, 15), (9, 15), (6, 9), (9, 12), (1, 14)):
+            co = zlib.compressobj(level, zlib.DEFLATED, wbits)
+            z = co.compress(payload) + co.flush()
             if len(z) > slot['len']:
                 continue
             buf = bytearray(data)
             # the stream may be shorter than the slot: zlib stops at the end of its stream, trailing slot bytes are ignored
             buf[slot['off']:slot['off'] + len(z)] = z
             ef2 = ELFFile(io.BytesIO(bytes(buf)))
-            observe(ef2.get_section(case['secidx']), '.level%d' % level)
+            observe(ef2.get_section(case['secidx']), '.level%d.w%d' % (level, wbits))
